@@ -220,6 +220,59 @@ def run(tier, seed, escalate=False):
                         fails.append({"key": "C16:multi-path-load", "clause": "C16:multi-path-load", "ops": [{"n": n}]})
                 except Exception as e:  # noqa: BLE001
                     fails.append({"key": "C16:multi-path-load-raises", "clause": "C16:multi-path-load-raises", "ops": [{"n": n, "error": type(e).__name__}]})
+        # multi-path load through the Lean model (`loadMany`): small synthetic Prospa files, every list length 1-5, paths
+        # in non-lexicographic order, with and without an explicit dimension name
+        import tempfile as _tf, shutil as _sh
+        from iocheck import make_case, encode_all, KITS
+        from common import canon_obj, diff_obj, rstr
+        work_m = _tf.mkdtemp(prefix="verif_c16_")
+        kit = KITS["prospa"]
+        cs = []
+        try:
+            files = []
+            from formats import logical_shape, rand_scalars, np_dtype, points_bytes
+            for _ in range(5):
+                cfg = {"ext": [4, 1, 1, 1], "dtype": 501, "v10": False, "rank": 1}
+                Lq = kit.layout(cfg); kind, width, big, cplx = kit.sample(cfg); shape = logical_shape(Lq)
+                nsc = int(np.prod(shape)) * 2
+                raw = rand_scalars(rng, nsc, kind, width).reshape(shape + [2])
+                cs.append({"kit": "prospa", "cfg": cfg, "L": Lq, "raw": raw, "points": points_bytes(raw, cplx, np_dtype(kind, width, big)), "shape": shape})
+            encode_all(cs)
+            names = ["9", "10", "2", "31", "4"]                    # as strings NOT in lexicographic order: 9 > 10 > 2 …
+            for nm, c in zip(names, cs):
+                d0 = os.path.join(work_m, nm); os.makedirs(d0)
+                files.append(kit.write(c["cfg"], d0, c["bytes"]))
+            with warnings.catch_warnings(), contextlib.redirect_stdout(io.StringIO()):
+                warnings.simplefilter("ignore")
+                singles = [canon_obj(dnp.load(f, data_format="prospa")) for f in files]
+                mops, impls = [], []
+                for n in range(1, 6):
+                    for dimname in ("tx", None):
+                        coord = [1.0 + 0.5 * k for k in range(n)]
+                        kw = {} if dimname is None else {"dim": dimname}
+                        try:
+                            m = dnp.load(files[:n], data_format="prospa", coord=np.array(coord), **kw)
+                            impls.append(canon_obj(m))
+                        except Exception as e:  # noqa: BLE001
+                            impls.append({"raise": type(e).__name__})
+                        mops.append(dict({"op": "load", "q": "many", "paths": files[:n], "coord": [rstr(x) for x in coord],
+                                          "files": [{"path": f, "obj": {k: so[k] for k in ("dims", "shape", "coords", "values")}}
+                                                    for f, so in zip(files, singles)]}, **kw))
+                        n_eval += 1
+            outs, _ = run_model(mops)
+            for o, i, op in zip(outs, impls, mops):
+                if "raise" in i or o.get("outcome") != "ok":
+                    if not ("raise" in i and str(o.get("outcome", "")).startswith("raise")):
+                        mism.append({"diffs": ["multi-load-outcome"], "ops": [{"n": len(op["paths"]), "dim": op.get("dim")}], "stream": -1,
+                                     "explained_by_known": False})
+                    continue
+                d = [f for f in diff_obj(o["obj"], i) if f in ("dims", "shape", "coords", "values")]
+                if d:
+                    mism.append({"diffs": ["multi-load:" + "+".join(d)], "ops": [{"n": len(op["paths"]), "dim": op.get("dim")}], "stream": -1,
+                                 "explained_by_known": False})
+                    fails.append({"key": "C16:multi-path-load", "clause": "C16:multi-path-load", "ops": [{"n": len(op["paths"]), "dim": op.get("dim")}]})
+        finally:
+            _sh.rmtree(work_m, ignore_errors=True)
         # ---------------- (f) dBm <-> W
         from dnplab.processing.conversion import dBm2w, w2dBm, convert_power
         levels = [-100, -63, -30, -10, -3, 0, 1, 7, 10, 20, 33, 45, 60]
